@@ -1,4 +1,4 @@
-CONSTANTS LGR = 3  LGI = 5  DA = 4  DB = 2  SIGNS = "all"  MUT = ""
+CONSTANTS LGR = 3  LGI = 5  DA = 4  DB = 2  SIGNS = "nonneg"  MUT = ""
 INIT Init
 NEXT Next
 INVARIANT Check
